@@ -181,3 +181,17 @@ class _serialize_point(Contract):
     @staticmethod
     def ensures(c):
         return [("decodes_to_point", dec(c.result.t) == c.point.t)]
+
+
+@contract(_SQ + "close")
+class _sclose(Contract):
+    """closing a storage changes neither its contents nor its temporary contents (CSVStorage.close is proved to leave the file holding the contents
+    under C04; MemoryStorage inherits the empty Storage.close); a close that fails reports the error (C13)"""
+    params = dict(self=STG)
+    modifies = ()
+    assumed = True
+    raises = {"WriteFault": staticmethod(lambda c: dict(when=z3.BoolVal(True), exact=False))}
+
+    @staticmethod
+    def ensures(c):
+        return []
